@@ -331,7 +331,10 @@ class LinearDict(Generic[TVector], MutableMapping[TVector, 'cirq.TParamValComple
 
     @classmethod
     def _from_json_dict_(cls, keys, values, **kwargs):
-        return cls(terms=dict(zip(keys, values)))
+        # JSON has no tuples: a tuple key comes back as a list.
+        return cls(
+            terms={(tuple(k) if isinstance(k, list) else k): v for k, v in zip(keys, values)}
+        )
 
     def _is_parameterized_(self) -> bool:
         return any(protocols.is_parameterized(v) for v in self._terms.values())
